@@ -206,6 +206,9 @@ def run_impl(case, mode):
     res['evolve_err'] = err
     res['unchanged'] = fqeio.read_state(wfn) == before
     if out is not None:
+        # the module-level entry points are the same operations
+        o2, _e = attempt(lambda: fqe.time_evolve(wfn, t, ham))
+        res['api_same'] = (o2 is not None and float((o2 - out).norm()) == 0.0)
         res['norm_in'] = float(wfn.norm())
         res['norm_out'] = float(out.norm())
         # composition: t then -t, and t/2 twice
@@ -230,6 +233,8 @@ def run_impl(case, mode):
         res['genu_err'] = err
         # the Hamiltonian object after the polynomial propagator consumed it: both routes once more
         if gu is not None:
+            g3, _e3 = attempt(lambda: fqe.apply_generated_unitary(wfn, t, case['algo'], ham, accuracy=1e-13, expansion=80, **kw))
+            res['genu_api_same'] = (g3 is not None and float((g3 - gu).norm()) == 0.0)
             gu2, err2 = attempt(lambda: wfn.apply_generated_unitary(t, case['algo'], ham, accuracy=1e-13, expansion=80, **kw))
             res['genu_again'] = fqeio.read_state(gu2) if gu2 is not None else None
             res['genu_again_err'] = err2
@@ -348,6 +353,10 @@ def compare(case, got, exp, mode):
                            ('inplace_err', 'in-place differs from out-of-place')):
             if key in got and got[key] > 10 * TOL * scale:
                 bad.append('%s: |difference| = %.3g' % (label, got[key]))
+    if got.get('api_same') is False:
+        bad.append('fqe.time_evolve(wfn, t, H) differs from wfn.time_evolve(t, H)')
+    if got.get('genu_api_same') is False:
+        bad.append('fqe.apply_generated_unitary(wfn, ...) differs from wfn.apply_generated_unitary(...)')
     if case['algo']:
         if got.get('genu') is None:
             if not (got.get('genu_err') or '').startswith('RuntimeError:maximum'):
